@@ -95,11 +95,16 @@ idl_a_demux_feed		(vbi_idl_demux *	dx,
 
 	spa = 0;
 
-	for (i = 0; i < spa_length; ++i)
-		spa |= vbi_unham8 (buffer[4 + i]) << (4 * i);
+	for (i = 0; i < spa_length; ++i) {
+		int n;
 
-	if (spa < 0) {
-		return FALSE;
+		n = vbi_unham8 (buffer[4 + i]);
+		if (n < 0) {
+			/* Do not shift a negative value. */
+			return FALSE;
+		}
+
+		spa |= n << (4 * i);
 	}
 
 	if (spa != dx->address)
